@@ -467,3 +467,10 @@ func RunCorpus(t *testing.T, dir string, replay ReplayFunc) {
 		R.Case(t, rf.Sub, "corpus:"+filepath.Base(f), c, []string{"corpus"}, true, fails)
 	}
 }
+
+// ExitInconclusive - leave the test process with a status the driver reports as "inconclusive"
+// (exit code 2 of the check): infrastructure trouble, never a violation
+func ExitInconclusive() {
+	R.Flush()
+	exit(3)
+}
